@@ -170,6 +170,7 @@ def run_all(src):
             from sa import contract
             ctx.rule(f"{p}.api", "API census", 0)
             contract.check(ctx, p, f"{p}.api", floor=0)
+            contract.check_overrides(ctx, f"{p}.api")
             ctx.verify_floors()
             keys = sorted({f"{r['rule']}|{r['key']}" for r in ctx.violations()})
         except AnalysisError as exc:
